@@ -218,14 +218,29 @@ func (env *e2eEnv) PlayE2E(name string, c *Case, perStep time.Duration) E2EResul
 		if ms := time.Since(t0).Milliseconds(); ms > res.WaitedMs {
 			res.WaitedMs = ms
 		}
-		if !okc || !oks {
+		// a connection WINDOW_UPDATE or an INITIAL_WINDOW_SIZE change ranges over the Go map of stream
+		// buffers: when at least two streams have frames queued towards the sender, which of them gets the
+		// connection credit first may differ from the rig's run (other frames, even another number of
+		// octets), and from then on the two runs are different, equally legitimate executions
+		mapRange := false
+		if ((st.In.T == "winupd" && st.In.ID == 0) || st.In.T == "settings") && i > 0 {
+			prev := c.Steps[i-1].SnapC
+			if st.From == "S" {
+				prev = c.Steps[i-1].SnapS
+			}
+			n := 0
+			for _, x := range prev.Streams {
+				if len(x.Queue) > 0 {
+					n++
+				}
+			}
+			mapRange = n >= 2
+		}
+		if (!okc || !oks) && !mapRange {
 			return fail(i, "not delivered within %v: client has %d of %d octets, server %d of %d", perStep, len(gc), len(wantC), len(gs), len(wantS))
 		}
-		if !sameFrames(gc, wantC) || !sameFrames(gs, wantS) {
-			// a connection WINDOW_UPDATE or an INITIAL_WINDOW_SIZE change ranges over the Go map of stream
-			// buffers: which stream gets the connection credit first may differ from the rig's run, and from
-			// then on the two runs are different (equally legitimate) executions
-			if (st.In.T == "winupd" && st.In.ID == 0) || st.In.T == "settings" {
+		if !okc || !oks || !sameFrames(gc, wantC) || !sameFrames(gs, wantS) {
+			if mapRange {
 				res.OK, res.Inconclusive, res.Step = true, true, i
 				close(closing)
 				clientEnd.Close()
